@@ -185,7 +185,7 @@ let op_cycle (args : str list) : str list =
   [ if reports_cycle (List.map decl args) then "1" else "0" ]
 
 (* language server: each argument one message:
-   "O uid file ver doc" | "C uid file ver d1,d2|-" | "S id uid file" | "Q id" | "N" | "A id" *)
+   "O uid file ver doc" | "C uid file ver d1,d2|-" | "X uid file" | "S id uid file" | "B id" | "Q id" | "N" | "A id" *)
 let z_of_int (i : int) : z = if i = 0 then Z0 else if i > 0 then Zpos (pos_of_int i) else Zneg (pos_of_int (-i))
 let int_of_z (x : z) : int = match x with Z0 -> 0 | Zpos p -> int_of_pos p | Zneg p -> - (int_of_pos p)
 let op_lsp (args : str list) : str list =
@@ -197,6 +197,8 @@ let op_lsp (args : str list) : str list =
     | ["C"; u; f; v; ds] -> DidChange (uri u f, z_of_int (int_of_string v),
                                        if ds = "-" then [] else List.map n (S.split_on_char ',' ds))
     | ["S"; i; u; f] -> SemTokens (n i, uri u f)
+    | ["X"; u; f] -> DidClose (uri u f)
+    | ["B"; i] -> BadParams (n i)
     | ["Q"; i] -> OtherRequest (n i)
     | ["N"] -> OtherNotification
     | ["A"; i] -> Response (n i)
